@@ -62,7 +62,7 @@ static opus_int32 verif_encode_frame_native(OpusEncoder *st, const opus_res *pcm
    if (verif_req_frame_size < st->Fs / 100) __CPROVER_assert(st->mode == MODE_CELT_ONLY, "frames below 10 ms use only the MDCT layer");
    if (verif_old.user_forced_mode == MODE_CELT_ONLY && (verif_prev_mode0 == 0 || verif_prev_mode0 == MODE_CELT_ONLY)) __CPROVER_assert(st->mode == MODE_CELT_ONLY, "forced MDCT mode is honoured");
    /* assumed effect: stream state changes, settings do not */
-   st->prev_mode = st->mode; st->prev_channels = st->stream_channels; st->prev_framesize = frame_size; st->first = 0;
+   st->prev_mode = st->mode; st->prev_channels = st->stream_channels; st->prev_framesize = frame_size; if (ret != 1) st->first = 0;   /* discharged on the real frame coder in C20 frame_coder_* (a 1-byte speech-layer DTX exit leaves it alone) */
    st->rangeFinal = nondet_uint(); st->silk_bw_switch = nondet_int(); st->nb_no_activity_ms_Q1 = nondet_int();
    st->silk_mode.allowBandwidthSwitch = nondet_int() & 1; st->silk_mode.inWBmodeWithoutVariableLP = nondet_int() & 1; st->silk_mode.switchReady = nondet_int();
    __CPROVER_assume(ret >= -7 && ret <= max_data_bytes);
